@@ -522,8 +522,10 @@ func kfC01a(g *hx.Gen, id int) hx.Case {
 	return c.run("kf.C01-a", id)
 }
 
-// C20-a witness: external proxy rule + internal copy rule + client Richie-Request-ID without a
-// secret: 407 only because of the copy rule
+// kfC20a: the former finding C20-a (external proxy rule + internal copy rule + client
+// Richie-Request-ID / Richie-Originating-IP without a secret: 407 only because of the copy rule),
+// repaired in createOutgoingRequests; regression cases: the copy request cannot be built, the copy
+// is skipped and the client gets the main destination's answer, as without the copy rule.
 func kfC20a(g *hx.Gen, id int) hx.Case {
 	ct := "copy_traffic"
 	hdr := [][2]string{{"Richie-Request-ID", "client-id"}}
